@@ -385,6 +385,15 @@ def build_program(rs):
             rns[h] = robotPeriodic
         else:
             rns[h] = _cb(f"robot.{h}")
+    if rs.get("consume"):
+        # the robot's own hooks guard their bodies with MagicRobot.consumeExceptions() (the documented idiom): with the
+        # FMS attached the fault is then swallowed inside the hook, without it onException() re-raises it through the
+        # context manager - for the observer exactly what the framework's own guard around the hook does
+        for h in rs["hooks"]:
+            def consuming(self, _inner=rns[h]):
+                with self.consumeExceptions():
+                    _inner(self)
+            rns[h] = consuming
     if rs.get("tia_late"):
         # the teleop-in-autonomous switch is only set at run time (the first disabledInit, which precedes every
         # enabled mode): the class says the opposite; what counts is the value when autonomous starts
@@ -897,6 +906,8 @@ def decode_robot(code):
     }
     if hooks_c % 3 == 0:
         rs["share_markers"] = True
+    if hooks_c % 7 == 3:
+        rs["consume"] = True
     if hooks_c % 5 == 2 and not rs["inst_cfg"]:
         rs["tia_late"] = True
     names = ["A", "B mode"]
@@ -1066,6 +1077,28 @@ def robot_cases(pid, deep=False):
                         case["early"][str(j)] = 0  # -> fires inside the first callback of the iteration = teleopPeriodic
                         case["writes"].append(dict(case["writes"][0], by="robot.teleopPeriodic", n=n))
                         break
+        if pid == "C10" and case.get("faults") and case["writes"] and not case.get("early") and fcode[0][0] % 2 == 0:
+            # a callback that runs *before* the components in an autonomous iteration - teleopPeriodic when it is run during
+            # autonomous, or the selected mode's on_iteration - assigns a marked attribute and then raises (FMS attached):
+            # the rest of the iteration, and the reset that ends it, still have to happen
+            am = active_mode(rs)
+            pre = []
+            if rs.get("tia") and "teleopPeriodic" in rs["hooks"]:
+                pre.append("robot.teleopPeriodic")
+            if am:
+                pre.append(f"mode:{am}.on_iteration")
+            if pre:
+                site = pre[fcode[0][2] % len(pre)]
+                if not any(seg[0] == "auto" for seg in case["hist"]):
+                    case["hist"].append(["auto", 3])
+                j = next(k for k, seg in enumerate(case["hist"]) if seg[0] == "auto")
+                if site == "robot.teleopPeriodic":
+                    before = sum(x[1] for x in case["hist"][:j] if x[0] == "teleop" or (x[0] == "auto" and rs.get("tia")))
+                else:
+                    before = sum(x[1] for x in case["hist"][:j] if x[0] == "auto")
+                n = before + 1 + fcode[0][1] % max(1, min(case["hist"][j][1], 3))
+                case["faults"] = [dict(case["faults"][0], site=site, occ=[n])] + [f for f in case["faults"][1:] if f["site"] != site]
+                case["writes"].append(dict(case["writes"][0], by=site, n=n))
         if pid == "C05":
             case["chunks"] = [c for c in ccode]
             if wcode:
@@ -1118,6 +1151,8 @@ class RobotLab(Lab):
             cl.add("teleop-in-auto")
         if case.get("fms"):
             cl.add("fms")
+        if rs.get("consume") and rs["hooks"]:
+            cl.add("hooks-use-consumeExceptions")
         if any(st_.get("via") for st_ in getattr(run, "steps", [])):
             cl.add("zero-iteration-visit")
         if case.get("early"):
